@@ -45,6 +45,7 @@ type SimDisk struct {
 	ShortWrite   bool // the failing write stores half of its bytes first
 	CrashAtWrite int  // the n-th write is torn at TornAt bytes and the process "dies"
 	TornAt       int
+	CrashOnlyG   int64  // when set, only writes of this goroutine can be the crash write
 	OnCrash      func() // called (in the writing goroutine) when the crash write happens; must not return
 	Fired        map[string]int
 }
@@ -212,6 +213,12 @@ func (w *diskWriter) Write(p []byte) (int, error) {
 	d := w.d
 	d.mu.Lock()
 	n := d.Writes + 1
+	if d.CrashAtWrite > 0 && n == d.CrashAtWrite && d.CrashOnlyG != 0 && goid() != d.CrashOnlyG {
+		// the addressed write belongs to a background goroutine of goleveldb
+		// (compaction): the crash callback unwinds the foreground goroutine, so
+		// the crash moves on to the next write
+		d.CrashAtWrite = n + 1
+	}
 	if d.CrashAtWrite > 0 && n == d.CrashAtWrite {
 		cut := d.TornAt
 		if cut > len(p) {
